@@ -200,6 +200,37 @@ func CheckPostings(r *Report, tag string, seg segment.Segment, m *model.Seg, o P
 					}
 				}
 			}
+			// two iterators of the same list, the first one paused while the second runs
+			if len(hits) >= 2 && n%5 == 0 && !r.Failed() {
+				a := pl.Iterator(true, true, true, nil)
+				var docsA []uint64
+				if p, err := a.Next(); err == nil && p != nil {
+					docsA = append(docsA, p.Number())
+				}
+				b := pl.Iterator(false, false, false, nil)
+				nb := 0
+				for {
+					p, err := b.Next()
+					if err != nil || p == nil {
+						break
+					}
+					nb++
+				}
+				for k := 1; ; k++ {
+					p, err := a.Next()
+					if err != nil || p == nil {
+						break
+					}
+					docsA = append(docsA, p.Number())
+					if k < len(hits) && !CompareHit(r, where+" (paused while a second iterator of the list ran)", p, &hits[k], true, true) {
+						break
+					}
+				}
+				if nb != len(hits) || len(docsA) != len(hits) {
+					r.Fail("two-iterators", "%s: a paused iterator and a second iterator of the same list yield %d and %d hits, want %d each", where, len(docsA), nb, len(hits))
+				}
+				r.Inc("lists_with_two_iterators", 1)
+			}
 			if len(hits) > 1 {
 				r.Inc("multi_doc_terms", 1)
 			}
